@@ -9,7 +9,6 @@ CHECKS = {
    note="Trusted: Coq kernel, extraction (ExtrOcamlBasic), OCaml driver, Go harness, python comparison. Modelled not verified: float64 hardware path of Multiply/Divide/Rescale is covered by the correspondence inside the 2^52 domain; AmountFromFloat64/Float64/formatter not covered.",
    technique="Rocq theorems over a Gallina model + differential correspondence (extracted OCaml vs Go)",
    design="7 (C05)"),
-<<<<<<< HEAD
  "C12": dict(
    text="Rocq theorems (rocq/Props/C12.v, 19 statements, axiom-free) over the Gallina transcription of tax.RateDef.Value / Combo.prepareRate (Rates/Lookup.v, model = code after the proposed one-token repair of the start-date comparison): the value looked up is applicable, has started, is the latest started among the applicable ones and the first such in table order; a value is in force on its start date itself; no answer iff the date precedes every applicable value, and then the preparation fails with invalid-date instead of guessing; exempt keys yield no percentage. Generated-data theorems (vm_compute of boolean checkers + proved soundness) state for EVERY rate table the code registers and every published table: unqualified values strictly descending, applicable values descending in every tag/extension context, every date valid. The as-shipped comparison is refuted in the same file (ES VAT standard on 2012-09-01 answers 18%). Tie: translator regenerates Gen/Regimes.v from tax.AllRegimeDefs() on every run; exhaustive correspondence Go vs extracted model over every regime x category x rate x qualifier context x {start-1,start,start+1, fixed, random dates} through RateDef.Value, tax.TotalCalculator and bill.Invoice.Calculate (issue_date and value_date), plus synthetic tables; oracle P from the published JSON.",
    note="Trusted: Coq kernel incl. vm_compute, extraction, OCaml driver, Go harness (harness/c12.go, gen_regimes.go), python comparison and P. Known finding C12-start-date-exclusive (findings/C12.json, fix in fixes/C12-1-start-date-inclusive.diff). Modelled not verified: regime/addon normalisers that could rewrite a combo before the lookup (the invoice stream would show a difference).",
@@ -20,13 +19,11 @@ CHECKS = {
    note="Trusted: Coq kernel incl. vm_compute, extraction, OCaml driver, the structural projection of harness/gen_regimes.go (texts are compared by bytes only), Go harness, python. Known findings C19-stale-gr-json, C19-in-scenario-tags-undefined, C19-it-sdi-duplicate-tag (findings/C19.json, fixes/C19-*.diff); the `_partial` theorems name their recorded exceptions in Defs/Coherence.v. Correction stamps are only checked to be non-empty (no stamp registry exists in the data).",
    technique="Rocq theorems over translated definition data + regeneration byte-diff + differential search (extracted checkers vs python over JSON)",
    design="7 (C19)"),
-=======
  "C06": dict(
    text="Theorems in Rocq (rocq/Props/C06.v, 35 statements, axiom-free, for ALL strings / all int64 amounts with 0-18 decimals) about the model Num/Codec.v of num/amount.go and num/percentage.go: the repaired reader accepts exactly the members of the published pattern whose value is an int64 with at most 18 decimals and reads them as the exact value with exponent = fraction length (parse_accepts_iff_pattern, parse_rejects_everything_else, parse_never_misreads, JSON variants through unquote), every amount prints as a pattern member and reads back identically (print_matches_pattern, parse_print_roundtrip, also proved of the shipped code for every value except math.MinInt64), percentages re-read to the same value with a stable text, and the exact language of the percentage reader; the defects of the shipped code are *_refuted theorems with computed witnesses. The published patterns are regenerated from JSONSchema() and data/schemas/num/*.json on every run and pinned by reflexivity lemmas. The model is tied to the Go code by running both on ~255k strings (pattern members, every single insertion/deletion/substitution of 14 symbols, digit strings around k*2^63, random bytes, JSON tokens) through UnmarshalText, UnmarshalJSON bare and quoted and a struct field via encoding/json, and on 100k amounts through String/MarshalText/json.Marshal/MinimalString and back; Go's outputs are also judged directly by an independent Python reading of the property.",
    note="Until fixes/C06-1-strict-amount-parse.diff is applied the correspondence runs against the model of the code AS SHIPPED and the three defect classes it repairs are KNOWN findings with narrow matchers (findings/C06.json); moving those entries to 'fixed' switches the correspondence to the repaired model. Known findings by design: percentage text without % / empty, the text null, JSON escapes, percentages beyond 2^52 (float64). Trusted: Coq kernel, extraction, OCaml driver, Go harness, Python judge. Modelled not verified: fmt %d/%0*d and strconv.ParseInt (tied by the correspondence), float64 path of percentages (exact in the model, C05's 2^52 guard), encoding/json tokenizer (struct-field route judged by the Python oracle only).",
    technique="Rocq theorems over a Gallina model + differential correspondence (extracted OCaml vs Go) + independent oracle on the implementation's outputs",
    design="7 (C06)"),
->>>>>>> wp-c06
 }
 
 CALC_NOTE = ("Trusted: Coq kernel, extraction, OCaml driver, Go harness, python generator/comparison and the independent python reading of the calculation. "
